@@ -195,12 +195,19 @@ Proof.
   intros. unfold so_step, out_resets, out_subd, out_evt. cbn [fst snd is_end orb]. rewrite andb_false_r. reflexivity.
 Qed.
 
-Lemma so_step_unsubscribed : forall y sub h x q s orc,
-    so_step y sub (Some (OMsg x (CUnsubscribe q s) orc)) h (x, RUnsubscribed q) =
-    if (x =? y) && (s =? sub) then Some false else Some h.
+Lemma so_step_unsubscribed : forall y sub cur h x q,
+    so_step y sub cur h (x, RUnsubscribed q) =
+    if (x =? y) && unsub_acked y sub cur q then Some false else Some h.
 Proof.
-  intros. unfold so_step, out_resets, out_subd, out_evt, unsub_acked. cbn [fst snd is_end orb].
-  rewrite N.eqb_refl. destruct (x =? y), (s =? sub); reflexivity.
+  intros. unfold so_step, out_resets, out_subd, out_evt. cbn [fst snd is_end orb]. reflexivity.
+Qed.
+
+Lemma unsub_acked_cur : forall y sub cur q, unsub_acked y sub (Some cur) q = true ->
+    exists orc, cur = OMsg y (CUnsubscribe q sub) orc.
+Proof.
+  intros y sub cur q H. unfold unsub_acked in H. destruct cur as [| x m orc | |]; try discriminate H.
+  destruct m; try discriminate H. apply andb_prop in H. destruct H as [H H3]. apply andb_prop in H. destruct H as [H1 H2].
+  apply N.eqb_eq in H1, H2, H3. subst. eauto.
 Qed.
 
 Lemma so_step_end : forall y sub cur h x m, is_end m = true ->
@@ -234,13 +241,26 @@ Definition dying (y : N) (b : broker) (l : list seg) : Prop :=
   (forall sub, ~ sub_has (b_subs b) sub y) \/ doomed y l.
 
 Definition bop_ok (cur : op) (cfg : config) (b : broker) (bo : bop) (rest : list seg) : Prop :=
-  b_idgen b < max_idN /\
   match bo with
+  | BSubscribe _ _ _ _ _ => b_idgen b < max_idN
   | BPublish pg lk now pub req opts topic args kw =>
       lookup_ok lk /\ (publish_aborts cfg pub opts topic = true -> dying (s_id pub) b rest)
-  | BUnsubscribe pg sid req subid => exists orc, cur = OMsg sid (CUnsubscribe req subid) orc
-  | _ => True
+  | BUnsubscribe pg sid req subid => forall s orc, cur = OMsg sid (CUnsubscribe req s) orc -> s = subid
+  | BRemove _ _ => True
   end.
+
+Lemma bnext_wf : forall cfg b bo, broker_wf b ->
+    (forall pg sid req opts topic, bo = BSubscribe pg sid req opts topic -> b_idgen b < max_idN) ->
+    broker_wf (bnext cfg b bo).
+Proof.
+  intros cfg b bo W H. unfold bnext. destruct bo; cbn [bstep].
+  - destruct (subscribe cfg b pg sid req opts topic) as [[b' pg'] o'] eqn:E. cbn [fst].
+    eapply subscribe_wf; eauto.
+  - destruct (unsubscribe b pg sid req subid) as [[b' pg'] o'] eqn:E. cbn [fst]. eapply unsubscribe_wf; eauto.
+  - destruct (broker_remove_session b pg sid) as [[b' pg'] o'] eqn:E. cbn [fst]. eapply remove_session_wf; eauto.
+  - destruct (publish cfg lookup now b pg pub req opts topic args kw) as [[b' pg'] o'] eqn:E. cbn [fst].
+    eapply publish_wf; eauto.
+Qed.
 
 Fixpoint seg_ok (cur : op) (cfg : config) (b : broker) (l : list seg) : Prop :=
   match l with
@@ -265,11 +285,11 @@ Lemma seg_ok_app : forall cur cfg l1 l2 b pg,
 Proof.
   intros cur cfg l1; induction l1 as [|s l1 IH]; intros l2 b pg H1 H2; cbn [app seg_run fst] in *; [exact H2|].
   destruct s as [bo|o]; cbn [seg_ok] in *.
-  - destruct H1 as [(Hg & Hb) H1]. unfold bnext in *.
+  - destruct H1 as [Hb H1]. unfold bnext in *.
     destruct (bstep cfg b bo) as [[b1 pg1] o1]. cbn [fst] in *.
     specialize (IH l2 b1 pg1 H1).
     destruct (seg_run cfg b1 pg1 l1) as [[b2 pg2] o2]. cbn [fst] in *. split; [|now apply IH].
-    split; [exact Hg|]. destruct bo; auto. destruct Hb as [L D]. split; [exact L|]. intros A. apply dying_app. auto.
+    destruct bo; auto. destruct Hb as [L D]. split; [exact L|]. intros A. apply dying_app. auto.
   - destruct H1 as [Hm H1]. specialize (IH l2 b pg H1).
     destruct (seg_run cfg b pg l1) as [[b2 pg2] o2]. cbn [fst] in *. split; [|now apply IH].
     intros m Hin. destruct (Hm m Hin) as [D|[E D]]; [now left|right]. split; [exact E|now apply dying_app].
@@ -310,8 +330,10 @@ Proof.
         destruct (IH b pg W Ok y sub h1 J1) as (h' & R' & Hf).
         destruct (seg_run cfg b pg l) as [[b2 pg2] o2]. cbn [fst snd] in *.
         exists h'. rewrite so_app, R1. auto. }
-    destruct Ok as [[Hg Hb] Ok].
-    destruct (bstep_wf cfg b bo W Hg) as [W1 _]. unfold bnext in *.
+    destruct Ok as [Hb Ok].
+    assert (W1 : broker_wf (bnext cfg b bo)).
+    { apply bnext_wf; [exact W|]. intros pg0 sid req opts topic ->. exact Hb. }
+    unfold bnext in *.
     (* what the operation does to the flag *)
     assert (Hop : exists h1, so_run y sub (Some cur) h (snd (bstep cfg b bo)) = Some h1 /\
                              flag_inv y sub (fst (fst (bstep cfg b bo))) h1 l).
@@ -319,7 +341,7 @@ Proof.
       - (* SUBSCRIBE *)
         assert (Jp : sub_has (b_subs b) sub y -> h = true) by (intros Hs; destruct (J Hs) as [E|[]]; exact E).
         destruct (subscribe cfg b pg0 sid req opts topic) as [[b1 pg1] o1] eqn:S. cbn [fst snd] in *.
-        destruct (subscribe_shape _ _ _ _ _ _ _ _ _ _ W Hg S) as [(-> & e & a & ->)|(id & rest & -> & On & Hne & Hh & Heff)].
+        destruct (subscribe_shape _ _ _ _ _ _ _ _ _ _ W Hb S) as [(-> & e & a & ->)|(id & rest & -> & On & Hne & Hh & Heff)].
         + exists h. split; [|intros Hs; left; auto]. apply so_keep. intros m [<-|[]]. right; left; reflexivity.
         + cbn [so_run]. rewrite so_step_subscribed.
           assert (Kr : forall h0, (sub_has (b_subs b) sub y -> h0 = true) -> so_run y sub (Some cur) h0 rest = Some h0).
@@ -335,21 +357,20 @@ Proof.
             destruct Hs as [Hs|[-> ->]]; [auto|]. rewrite !N.eqb_refl in Eq. discriminate Eq.
       - (* UNSUBSCRIBE *)
         assert (Jp : sub_has (b_subs b) sub y -> h = true) by (intros Hs; destruct (J Hs) as [E|[]]; exact E).
-        destruct Hb as (orc & ->).
         destruct (unsubscribe b pg0 sid req subid) as [[b1 pg1] o1] eqn:S. cbn [fst snd] in *.
         destruct (unsubscribe_shape _ _ _ _ _ _ _ _ W S) as [(-> & ->)|(rest & -> & On & Hne & Hh & Heff)].
         + exists h. split; [|intros Hs; left; auto]. apply so_keep. intros m [<-|[]]. right; left; reflexivity.
         + cbn [so_run]. rewrite so_step_unsubscribed.
           assert (Kr : forall h0, (forall z, z <> sid -> sub_has (b_subs b) sub z -> z = y -> h0 = true) ->
-                                  so_run y sub (Some (OMsg sid (CUnsubscribe req subid) orc)) h0 rest = Some h0).
+                                  so_run y sub (Some cur) h0 rest = Some h0).
           { intros h0 J0. apply so_keep. intros [x m] Hin. specialize (On _ Hin). cbn [snd] in On. destruct m; try discriminate On.
             destruct (N.eq_dec x y) as [->|Hn]; [|left; exact Hn].
             right; right; right. do 5 eexists. split; [reflexivity|]. intros ->.
             pose proof (Hh _ _ _ _ _ _ Hin) as Hs. apply Heff in Hs. destruct Hs as [Hs _].
             apply (J0 y); auto. exact (Hne _ Hin). }
-          destruct ((sid =? y) && (subid =? sub)) eqn:Eq.
-          * apply andb_prop in Eq. destruct Eq as [E1 E2].
-            apply N.eqb_eq in E1, E2. subst.
+          destruct ((sid =? y) && unsub_acked y sub (Some cur) req) eqn:Eq.
+          * apply andb_prop in Eq. destruct Eq as [E1 E2]. apply N.eqb_eq in E1. subst sid.
+            destruct (unsub_acked_cur _ _ _ _ E2) as (orc & Ec). specialize (Hb _ _ Ec). subst subid.
             exists false. split; [apply Kr; intros z Hz _ E; congruence|].
             intros Hs. apply Heff in Hs. destruct Hs as [_ Hs]. exfalso. apply Hs. auto.
           * exists h. split; [apply Kr; intros z _ Hs ->; auto|].
